@@ -822,12 +822,25 @@ class Interp:
             if op in ('udiv', 'urem', 'sdiv', 'srem'):
                 if self.feasible(zb == 0): raise Monitor('int-div-zero', '%s by a value that can be zero in %s' % (op, fname))
                 # C semantics: truncation toward zero
+                if z3.is_int_value(zb):
+                    # constant divisor: fresh quotient / remainder with linear defining constraints (C truncation)
+                    d = zb.as_long(); ad = abs(d)
+                    self._nqr = getattr(self, '_nqr', 0) + 1
+                    q = z3.Int('q!%d' % self._nqr); r = z3.Int('r!%d' % self._nqr)
+                    self.add_pc(z3.And(za == q * d + r, z3.Implies(za >= 0, z3.And(r >= 0, r < ad)), z3.Implies(za < 0, z3.And(r <= 0, r > -ad))))
+                    return sv(q) if op in ('sdiv', 'udiv') else sv(r)
                 q = z3.If(za >= 0, z3.If(zb > 0, za / zb, -(za / (-zb))), z3.If(zb > 0, -((-za) / zb), (-za) / (-zb)))
                 if op in ('sdiv', 'udiv'): return sv(q)
                 return sv(za - q * zb)
             e = {'add': lambda: za + zb, 'sub': lambda: za - zb, 'mul': lambda: za * zb}.get(op)
             if e is None:
                 if op == 'shl' and isinstance(b, int): return sv(za * (1 << b))
+                if op == 'xor' and isinstance(b, int) and b == (1 << bits) - 1: return sv(-za - 1)        # bitwise not
+                if op == 'xor' and isinstance(a, int) and a == (1 << bits) - 1: return sv(-zb - 1)
+                if op == 'lshr' and isinstance(b, int) and b == bits - 1: return sv(z3.If(za < 0, z3.IntVal(1), z3.IntVal(0)))   # sign bit
+                if op == 'ashr' and isinstance(b, int) and b == bits - 1: return sv(z3.If(za < 0, z3.IntVal(-1), z3.IntVal(0)))
+                if op == 'and' and isinstance(b, int) and b == 1: return sv(za % 2)
+                if op == 'and' and isinstance(b, int) and b == (1 << (bits - 1)): return sv(z3.If(za < 0, z3.IntVal(b), z3.IntVal(0)))
                 if op == 'and' and isinstance(b, int) and b == (1 << bits) - 1: return a
                 if op in ('and', 'or', 'xor', 'lshr', 'ashr', 'shl'):
                     # fall back to bit-vectors for bit operations
